@@ -2209,15 +2209,30 @@ impl<'a> UserModel<'a> {
     /// Delete an existing defined name
     pub fn delete_defined_name(&mut self, name: &str, scope: Option<u32>) -> Result<(), String> {
         let old_value = self.model.get_defined_name_formula(name, scope)?;
+        // Names are matched ignoring case: undo must bring back the name as it was spelled
+        let stored_name = self.stored_defined_name(name, scope);
+        self.model.delete_defined_name(name, scope)?;
         let diff_list = vec![Diff::DeleteDefinedName {
-            name: name.to_string(),
+            name: stored_name,
             scope,
             old_value,
         }];
         self.push_diff_list(diff_list);
-        self.model.delete_defined_name(name, scope)?;
         self.evaluate_if_not_paused();
         Ok(())
+    }
+
+    /// The spelling under which a defined name is stored (lookups ignore case)
+    fn stored_defined_name(&self, name: &str, scope: Option<u32>) -> String {
+        let sheet_id = scope.and_then(|s| self.model.workbook.worksheet(s).ok().map(|w| w.sheet_id));
+        let upper = name.to_uppercase();
+        self.model
+            .workbook
+            .defined_names
+            .iter()
+            .find(|d| d.name.to_uppercase() == upper && d.sheet_id == sheet_id)
+            .map(|d| d.name.clone())
+            .unwrap_or_else(|| name.to_string())
     }
 
     /// Create a new defined name
@@ -2258,13 +2273,15 @@ impl<'a> UserModel<'a> {
             .model
             .get_defined_name_formula(name, scope)
             .map_err(|_| "General: Failed to get old name")?;
+        // Names are matched ignoring case: undo must bring back the name as it was spelled
+        let stored_name = self.stored_defined_name(name, scope);
         self.model
             .update_defined_name(name, scope, new_name, new_scope, new_formula)?;
         // Read back the canonical (English) formula that was just stored so the
         // diff stays canonical; a successful update guarantees it is retrievable.
         let new_formula_internal = self.model.get_defined_name_formula(new_name, new_scope)?;
         let diff_list = vec![Diff::UpdateDefinedName {
-            name: name.to_string(),
+            name: stored_name,
             scope,
             old_formula,
             new_name: new_name.to_string(),
